@@ -24,9 +24,9 @@ pub fn compute(world: &World, trace: &[Rec], v: &Violation) -> Vec<String> {
         tags.push("non-en".into());
     }
     // every difference is a formula text that gained implicit-intersection operators
-    if !v.diff.is_empty()
-        && v.diff.iter().all(|l| l.facet == "cell.content" && l.actual != l.expected && l.actual.contains('@') && l.actual.replace('@', "") == l.expected.replace('@', ""))
-    {
+    // (and the parentheses the printer puts around them)
+    let bare = |t: &str| t.replace(['@', '(', ')'], "");
+    if !v.diff.is_empty() && v.diff.iter().all(|l| l.facet == "cell.content" && l.actual != l.expected && l.actual.contains('@') && bare(&l.actual) == bare(&l.expected)) {
         tags.push("diff:only-added-intersection".into());
     }
     // state tags, on the primary node
